@@ -31,9 +31,12 @@ import HexVerif.Isa.Spec
     (`simout`/`simin`: `s < 256` is stdio, otherwise file slot `(s >> 8) & 7`);
   * a string literal of `n < 256` ASCII characters denotes the (read-only) packed array: byte 0 of
     word 0 is `n`, the characters follow, four bytes per word, least significant byte first;
-  * the supported syntactic subset (`checkProgram`): names declared once per scope, no `proc`/`func`
-    formals, `val`s and array lengths are constant expressions over literals and *earlier* `val`s,
-    `main` is a procedure without formals.
+  * the supported syntactic subset (`checkProgram`, `checkProcs`): names declared once per scope, no
+    `proc`/`func` formals, `val`s and array lengths are constant expressions over literals and
+    *earlier* `val`s, `main` is a procedure without formals; every name used is declared and used
+    according to its kind (variables assigned, arrays subscripted, functions called in expressions
+    and procedures as statements, with as many actuals of the right kind as formals; system calls
+    0..2 with 1/2/1 integer actuals), also in code that is never executed.
 -/
 namespace Hex.X
 open Hex.Isa (IOSt Ev)
@@ -393,6 +396,163 @@ def asInt (what : String) (r : Res Val) : Res Word :=
 def asBool (what : String) (r : Res Val) : Res Word :=
   (asInt what r).bind fun w s => if isBool w then .ok w s else .undef s!"{what} is not true/false"
 
+/-! ### Static well-formedness: names, kinds and arities (the valid programs of the quantifier) -/
+
+/-- Static type of an expression: does it denote an array (array name, array formal, string)? -/
+def exprIsArray (genv : List (String × GBind)) (locals : List (String × LBind)) : Expr → Bool
+  | .str _ => true
+  | .name n =>
+    match locals.lookup n with
+    | some (.arrF _) => true
+    | some _ => false
+    | none => match genv.lookup n with
+      | some (.array _) => true
+      | _ => false
+  | _ => false
+
+def sysArity (id : Word) : Option Nat :=
+  if id = 0 then some 1 else if id = 1 then some 2 else if id = 2 then some 1 else none
+
+/-- What a called name denotes in the scope given by `locals`. -/
+def staticCallee (genv : List (String × GBind)) (locals : List (String × LBind)) (f : String) : Callee :=
+  match locals.lookup f with
+  | some (.val w) => .sys w
+  | some _ => .bad s!"call of {f}, which is not a procedure"
+  | none =>
+    match genv.lookup f with
+    | some (.val w) => .sys w
+    | some (.proc p) => .user p
+    | some _ => .bad s!"call of {f}, which is not a procedure"
+    | none => .bad s!"unknown name {f}"
+
+def chkKinds (genv : List (String × GBind)) (locals : List (String × LBind)) (f : String) :
+    List Formal → List Expr → Except String Unit
+  | [], [] => .ok ()
+  | .val _ :: fs, a :: as =>
+    if exprIsArray genv locals a then .error s!"array passed for a val formal of {f}" else chkKinds genv locals f fs as
+  | .array _ :: fs, a :: as =>
+    if exprIsArray genv locals a then chkKinds genv locals f fs as else .error s!"integer passed for an array formal of {f}"
+  | .proc _ :: _, _ | .func _ :: _, _ => .error "proc/func formals are not supported"
+  | _, _ => .error s!"wrong number of actuals in a call of {f}"
+
+mutual
+def chkE (genv : List (String × GBind)) (locals : List (String × LBind)) : Expr → Except String Unit
+  | .num _ | .bool _ => .ok ()
+  | .str bs => do let _ ← packString bs; pure ()
+  | .name n =>
+    match locals.lookup n with
+    | some _ => .ok ()
+    | none => match genv.lookup n with
+      | some (.proc _) => .error s!"procedure name {n} used as a value"
+      | some _ => .ok ()
+      | none => .error s!"unknown name {n}"
+  | .sub n i => do
+    if !exprIsArray genv locals (.name n) then throw s!"subscript applied to {n}, which is not an array"
+    chkE genv locals i
+    if exprIsArray genv locals i then throw "array used as a subscript"
+  | .un _ e => do
+    chkE genv locals e
+    if exprIsArray genv locals e then throw "array used as an operand"
+  | .bin _ l r => do
+    chkE genv locals l
+    chkE genv locals r
+    if exprIsArray genv locals l || exprIsArray genv locals r then throw "array used as an operand"
+  | .syscall id args => do
+    if id != 2 then throw "value of system call 0/1 (or invalid system call) used as an operand"
+    chkL genv locals args
+    if args.length != 1 || args.any (exprIsArray genv locals) then throw "system call 2 (get) needs one integer actual"
+  | .call f args => do
+    chkL genv locals args
+    match staticCallee genv locals f with
+    | .bad why => throw why
+    | .sys id =>
+      if id != 2 then throw "value of system call 0/1 (or invalid system call) used as an operand"
+      if args.length != 1 || args.any (exprIsArray genv locals) then throw "system call 2 (get) needs one integer actual"
+    | .user p =>
+      if !p.isFunc then throw s!"value of procedure {f} used as an operand"
+      chkKinds genv locals f p.formals args
+def chkL (genv : List (String × GBind)) (locals : List (String × LBind)) : List Expr → Except String Unit
+  | [] => .ok ()
+  | e :: es => do chkE genv locals e; chkL genv locals es
+end
+
+def isVarName (genv : List (String × GBind)) (locals : List (String × LBind)) (n : String) : Bool :=
+  match locals.lookup n with
+  | some (.var _) => true
+  | some _ => false
+  | none => match genv.lookup n with
+    | some .var => true
+    | _ => false
+
+mutual
+def chkS (genv : List (String × GBind)) (locals : List (String × LBind)) (inFunc : Bool) : Stmt → Except String Unit
+  | .skip | .stop => .ok ()
+  | .ret e => do
+    if !inFunc then throw "return in a procedure"
+    chkE genv locals e
+    if exprIsArray genv locals e then throw "array returned"
+  | .ite c t e => do
+    chkE genv locals c
+    if exprIsArray genv locals c then throw "array used as a condition"
+    chkS genv locals inFunc t
+    chkS genv locals inFunc e
+  | .while c b => do
+    chkE genv locals c
+    if exprIsArray genv locals c then throw "array used as a condition"
+    chkS genv locals inFunc b
+  | .seq ss => chkSL genv locals inFunc ss
+  | .assign n e => do
+    if !isVarName genv locals n then throw s!"assignment to {n}, which is not a variable"
+    chkE genv locals e
+    if exprIsArray genv locals e then throw "array assigned to a variable"
+  | .assignSub n i e => do
+    if !exprIsArray genv locals (.name n) then throw s!"subscript applied to {n}, which is not an array"
+    chkE genv locals i
+    chkE genv locals e
+    if exprIsArray genv locals i || exprIsArray genv locals e then throw "array used as an integer"
+  | .syscall id args => do
+    chkL genv locals args
+    match sysArity (BitVec.ofNat 32 id) with
+    | none => throw "invalid system call number"
+    | some k => if id ≥ 3 || args.length != k || args.any (exprIsArray genv locals) then throw "wrong actuals of a system call"
+  | .call f args => do
+    chkL genv locals args
+    match staticCallee genv locals f with
+    | .bad why => throw why
+    | .sys id =>
+      match sysArity id with
+      | none => throw "invalid system call number"
+      | some k => if args.length != k || args.any (exprIsArray genv locals) then throw "wrong actuals of a system call"
+    | .user p =>
+      if p.isFunc then throw s!"function {f} used as a statement"
+      chkKinds genv locals f p.formals args
+def chkSL (genv : List (String × GBind)) (locals : List (String × LBind)) (inFunc : Bool) : List Stmt → Except String Unit
+  | [] => .ok ()
+  | s :: ss => do chkS genv locals inFunc s; chkSL genv locals inFunc ss
+end
+
+/-- Placeholder bindings that give the formals of `p` their kinds. -/
+def formalKinds : List Formal → List (String × LBind)
+  | [] => []
+  | .val n :: fs => (n, .valF 0) :: formalKinds fs
+  | .array n :: fs => (n, .arrF (.lit [])) :: formalKinds fs
+  | .proc n :: fs => (n, .valF 0) :: formalKinds fs
+  | .func n :: fs => (n, .valF 0) :: formalKinds fs
+
+/-- Every name used is declared, with the right kind and arity; local `val`s are constant. -/
+def checkProc (genv : List (String × GBind)) (p : Proc) : Except String Unit := do
+  let fb := formalKinds p.formals
+  let fnames := fb.map (·.1)
+  let lb ← bindLocals ((globalVals genv).filter fun kv => !fnames.contains kv.1) p.locals
+  chkS genv (fb ++ lb) p.isFunc p.body
+
+def checkProcs (genv : List (String × GBind)) : List Proc → Except String Unit
+  | [] => .ok ()
+  | p :: ps => do
+    match checkProc genv p with
+    | .error w => throw s!"in {p.name}: {w}"
+    | .ok () => checkProcs genv ps
+
 /-! ### The interpreter -/
 
 mutual
@@ -633,6 +793,9 @@ def run (P : Program) (inp : Input) (fuel : Nat) : Result :=
     | .error w => .undefined w
     | .ok (env, gv, arrs) =>
       let genv := env ++ P.procs.map fun p => (p.name, GBind.proc p)
+      match checkProcs genv P.procs with
+      | .error w => .undefined ("unsupported: " ++ w)
+      | .ok () =>
       let ctx : Ctx := { genv, impure := impureProcs P, limit := fuel }
       let st : St := { gvars := gv, arrays := arrs, locals := [], io := IOSt.init inp.stdin inp.files,
                        calls := [], steps := 0, depth := 0 }
